@@ -227,7 +227,7 @@ def run_discrete(ctx, m, space, k):
         judge_contains(ctx, m, space, c, "complex", type(c).__name__)
     for h in (2**40, -2**40, 2**70, 2**31, -2**31 - 1, 2**32 + int(v)):
         judge_contains(ctx, m, space, h, "huge-int", "py")
-    for h in (2**32 + int(v), 2**40, -2**32 + int(v) if v > 0 else 2**33, 2**63 - 1):
+    for h in (2**32 + int(v), 2**40, -2**32 + int(v) if v > 0 else 2**33, 2**63 - 1, -2**63, -2**63 + 1):
         judge_contains(ctx, m, space, np.int64(h), "int64-overflow", "np-scalar")
         judge_contains(ctx, m, space, np.asarray(h, np.int64), "int64-overflow", "np")
     judge_contains(ctx, m, space, np.asarray(2**32 + int(v), np.uint64), "int64-overflow", "np-uint64")
@@ -325,9 +325,10 @@ def run_box(ctx, m, space, k):
         bad[i] = int(np.floor(float(hi.ravel()[i]))) + 1 + int(rng.integers(0, 5))
         judge_contains(ctx, m, space, bad.reshape(lo.shape), "int-above-high", "np-int64")
         if (hi.ravel()[i] < 2**31) and (lo.ravel() <= 0).all() and (hi.ravel() >= 0).all():
-            ov = np.zeros(lo.size, np.int64)
-            ov[i] = 2**32
-            judge_contains(ctx, m, space, ov.reshape(lo.shape), "int64-overflow", "np")
+            for big in (2**32, -2**63, 2**63 - 1):
+                ov = np.zeros(lo.size, np.int64)
+                ov[i] = big
+                judge_contains(ctx, m, space, ov.reshape(lo.shape), "int64-overflow", "np")
     judge_contains(ctx, m, space, v.astype(np.float64), "ambiguous-float64", "np")
     judge_contains(ctx, m, space, v.tolist(), "ambiguous-python-list", "list")
     _foreign_cases(ctx, m, space)
@@ -395,9 +396,10 @@ def run_multibinary(ctx, m, space, k):
             judge_contains(ctx, m, space, x, "nan", rep)
         for rep, x in reps(w(np.inf, np.float32), py_ok=False):
             judge_contains(ctx, m, space, x, "too-large", rep + "-inf")
-        ov = base.astype(np.int64).ravel().copy()
-        ov[i] = 2**32 + int(ov[i])
-        judge_contains(ctx, m, space, ov.reshape(shape), "int64-overflow", "np")
+        for big in (2**32 + int(base.ravel()[i]), -2**63, 2**63 - 1):
+            ov = base.astype(np.int64).ravel().copy()
+            ov[i] = big
+            judge_contains(ctx, m, space, ov.reshape(shape), "int64-overflow", "np")
         for vv in (2**32 - 1, 2**31, 2**31 + 1):
             for rep, x in reps(w(vv, np.uint32), py_ok=False):
                 judge_contains(ctx, m, space, x, "too-large", rep + "-uint32")
@@ -452,7 +454,8 @@ def run_multidiscrete(ctx, m, space, k):
             judge_contains(ctx, m, space, x, "non-integral", rep)
         for rep, x in reps(w(np.nan, np.float32), py_ok=False):
             judge_contains(ctx, m, space, x, "nan", rep)
-        judge_contains(ctx, m, space, w(2**32 + int(base[i])), "int64-overflow", "np")
+        for big in (2**32 + int(base[i]), -2**63, -2**63 + 1, 2**63 - 1):
+            judge_contains(ctx, m, space, w(big), "int64-overflow", "np")
         # unsigned values above the int32 range: reinterpreted as int32 they would be small negative / member indices
         for v in (2**32 - 1, 2**32 - int(nv[i]), 2**31, 2**31 + int(base[i])):
             for rep, x in reps(w(v, np.uint32), py_ok=False):
